@@ -18,8 +18,8 @@ type wev struct {
 }
 
 type evLog struct {
-	mu     sync.Mutex
-	events []wev
+	mu      sync.Mutex
+	events  []wev
 	fails   func(n int) bool // failure schedule over write attempts (nil = never)
 	n       int              // attempts so far
 	partial bool             // a failing write reports a positive byte count
